@@ -99,11 +99,11 @@ where
     let mut ops = Vec::with_capacity(cfg.steps);
     for i in 0..cfg.steps {
         let op = gen_op(&mut rng, w.n, w.hs.len(), K::HAS_QUANT, &cfg.profile);
-        if i == 0 {
-            ctx.sample(|| format!("{}: first ops {:?} ...", w.label, op));
-        }
         w.step(ctx, &op);
         ops.push(op);
+        if i == 11 {
+            ctx.sample(|| format!("{} ({} steps, audit every {}): first ops {:?} ...", w.label, cfg.steps, cfg.audit_every, &ops));
+        }
         if ctx.num_violations() > 50 {
             break;
         }
